@@ -15,9 +15,11 @@ def gen_ops():
     add("parse_err_mid", "x = (1 + ] 2\ny = 3")
     add("lex_err", 'x = "abc\ny = 1')
     add("check_err", "x = 1\nnosuch(x)\nbreak")
-    add("run_err_in_loops", "for i = 0; i < 2; i = i + 1 {\nfor v in [1, 2] {\nif v == 2 { break }\nprobe(i, v)\n}\nif i == 1 { continue }\nq = [1][5]\n}\nprobe(9)", pt=STD_PT)
-    add("run_exit_in_loop", "for v in [1, 2, 3] {\nif v == 2 { exit() }\nadd_key(k, v)\nprobe(v)\n}\nprobe(9)", pt=STD_PT)
-    p = ps("h8:run_cancelled", "for i = 0; i < 50; i = i + 1 {\nadd_key(c, i)\nprobe(i)\n}\nprobe(9)", pt=STD_PT)
+    # fails inside nested loop bodies, after assigning top-level variables (one shadowing a point key)
+    add("run_err_in_loops", 'lvl = "stale"\nfi = "shadow"\nl = [1]\nfor i = 0; i < 2; i = i + 1 {\nfor v in [1, 2] {\nif v == 2 { break }\nprobe(i, v)\n}\n'
+        'if i == 1 { continue }\nw = 3\nq = l[5]\n}\nprobe(9)', pt=STD_PT)
+    add("run_exit_in_loop", "ev = 1\nfs = 0\nfor v in [1, 2, 3] {\nif v == 2 { exit() }\nadd_key(k, v)\nprobe(v)\n}\nprobe(9)", pt=STD_PT)
+    p = ps("h8:run_cancelled", "cv = 1\ntg = 0\nfor i = 0; i < 50; i = i + 1 {\nadd_key(c, i)\nprobe(i)\n}\nprobe(9)", pt=STD_PT)
     p["kind"] = "run_cancelled"
     p["fire_at"] = 7
     ops.append(p)
@@ -26,5 +28,9 @@ def gen_ops():
     add("run_rename_drop", "rename(nf, fi)\ndrop_key(fs)\nset_tag(nf)\nrename(t2, tg)\nadd_key(fs, 2.5)\ndrop_key(message)\nprobe(nf, fs, t2, fi)", pt=STD_PT)
     add("parse_rejected_operand", "x = -0x\ny = 1 / 0")
     add("run_v2", 'a, b = 1, "s"\nfor v in [a, 2] { probe(v, b) }\nprobe(one(a) + 1)', v2=True)
-    add("run_ok", 'probe(r, x, k, c, kb, nf, t2)\nadd_key(r, "second")\nprobe(fi, fs, tg, message)', pt=STD_PT)
+    # fails inside an if body / an elif condition, after assigning top-level variables
+    add("run_err_in_if", 'z = 1\nmessage = "shadow"\nif z == 1 {\nzz = 2\nif true { q = 1 + nil }\n}\nprobe(9)', pt=STD_PT)
+    add("run_err_in_cond", 'y1 = 1\nfb = 0\nfor ; y1 + nil; { }\nprobe(9)', pt=STD_PT)
+    # reads every name an earlier script assigned (they must all be the point's keys or nil here)
+    add("run_ok", 'probe(r, x, k, c, kb, nf, t2, lvl, l, w, q, i, v, ev, cv, z, zz, y1)\nadd_key(r, "second")\nprobe(fi, fs, tg, fb, message, _)', pt=STD_PT)
     return ops
